@@ -240,6 +240,7 @@ pub fn run(rep: &mut Rep) {
         holds: true,
         race: true,
         drops: true,
+        handle_churn: true,
         ..Default::default()
     };
     let walks = if rep.quick() { 600 } else { 12000 };
